@@ -32,13 +32,19 @@ def pVals : Nat → List String → Option (List Marshal.GoVal × List String)
       some (v :: vs, r2)
   | _, _ => none
 
-def pRows : Nat → Nat → List String → Option (List (List Marshal.GoVal))
-  | 0, _, [] => some []
-  | 0, _, _ :: _ => none
-  | r+1, n, ws => do
+def pRows : List Nat → List String → Option (List (List Marshal.GoVal))
+  | [], [] => some []
+  | [], _ :: _ => none
+  | n :: ns, ws => do
       let (vs, rest) ← pVals n ws
-      let more ← pRows r n rest
+      let more ← pRows ns rest
       some (vs :: more)
+
+/-- a schema row `name:kind:position`; the partition-key rows -/
+def pSchemaRow (w : String) : Option (Option (String × Nat)) :=
+  match w.splitOn ":" with
+  | [n, k, p] => p.toNat?.map (fun p => if k == "p" then some (n, p) else none)
+  | _ => none
 
 def takeN (n : Nat) (ws : List String) : Option (List String × List String) :=
   if ws.length < n then none else some (ws.take n, ws.drop n)
@@ -59,9 +65,10 @@ def showKey (isQuery : Bool) (ks tbl : String) : Routing.KeyRes → String
   | .errMeta => "err:meta"
   | .crash => "crash"
 
-/-- rkm <proto> <gs> <q|b|bx> <npk> <idx>… <sch> <m> <name>… <ncols> {| <name> <T…>}… <nrows> {{| <V…>}…}…
-    gs = global table spec flag of the PREPARE answer (keyspace "ks", table "tbl"); sch = 1: the schema metadata of
-    "ks" knows table "tbl" with the partition key columns <name>…; 0: it does not. One answer per row, joined by " ; ". -/
+/-- rkm <proto> <gs> <q|b|bx> <npk> <idx>… <sch> <m> <name:kind:pos>… <ncols> {| <name> <T…>}… | <nrows> <nvals>… {| <V…>}…
+    gs = global table spec flag of the PREPARE answer (keyspace "ks", table "tbl"); sch = 1|2: the schema tables of
+    "ks" have table "tbl" with the column rows <name:kind:position>… (kind p = partition key), compiled by
+    compileMetadata; 0: they do not have it. One answer per row, joined by " ; ". -/
 def rkm (ws : List String) : Option String := do
   match ws with
   | p :: gs :: kind :: npk :: r0 =>
@@ -72,24 +79,29 @@ def rkm (ws : List String) : Option String := do
     match r1 with
     | sch :: m :: r2 =>
       let m ← m.toNat?
-      let (names, r3) ← takeN m r2
+      let (roww, r3) ← takeN m r2
+      let srows ← roww.mapM pSchemaRow
+      -- TableMetadata.PartitionKey as compileMetadata builds it; a nil entry is not modelled (never generated)
+      let names ← (Routing.schemaPartitionKey (srows.filterMap id)).mapM id
       match r3 with
       | ncols :: r4 =>
         let ncols ← ncols.toNat?
         let (cols, r5) ← pCols ncols r4
         match r5 with
-        | nrows :: r6 =>
+        | "|" :: nrows :: r6 =>
           let nrows ← nrows.toNat?
-          let rows ← pRows nrows ncols r6
+          let (cntw, r7) ← takeN nrows r6
+          let cnts ← cntw.mapM (·.toNat?)
+          let rows ← pRows cnts r7
           let global := gs == "1"
           let ks := if global then "ks" else ""
           let tbl := if global then "tbl" else ""
           let md : Routing.Meta ValueSpec.CqlTy := ⟨cols, pk, ks, tbl⟩
-          let schema : Option (List String) := if sch == "1" && global then some names else none
+          let schema : Option (List String) := if sch != "0" && global then some names else none
           let isQuery := kind == "q"
           some (" ; ".intercalate (rows.map (fun vals =>
             showKey isQuery ks tbl (Routing.getRoutingKey (encOf p) md schema vals))))
-        | [] => none
+        | _ => none
       | [] => none
     | _ => none
   | _ => none
@@ -129,7 +141,7 @@ def canonical (bs : List UInt8) : Bool :=
   murmur <hex>            → signed decimal int64 token
   random <hex16 digest>   → decimal token
   ordlt <hex> <hex>       → true|false
-  parsem <string>         → int64 (murmur3 ParseString().String())
+  parsem <string>         → int64 (murmur3 ParseString().String()) of a VALID token string; parsemx: any string
   rkey <hex> <hex> ...    → hex routing key of the encoded components
   qrk <c..> / <c..> / …   → one key per step (a Query object re-bound step by step)
   qrke <explicit> / <c..> / … → the explicit key at every step
@@ -149,6 +161,9 @@ def step (_ : Unit) (ws : List String) : Unit × String :=
       | some x, some y => toString (Token.lexLt x y)
       | _, _ => "bad-op"
   | ["parsem", h] => match parseHex h with
+      | some bs => if canonical bs then toString (Token.parseInt64 (chars bs)) else "noncanonical"
+      | none => "bad-op"
+  | ["parsemx", h] => match parseHex h with
       | some bs => toString (Token.parseInt64 (bs.map (fun b => Char.ofNat b.toNat)))
       | none => "bad-op"
   | ["parser", h] => match parseHex h with
